@@ -163,6 +163,14 @@ func runHitCase(c *hitCase, seed int64) KV {
 	case "host":
 		tgt.Header = http.Header{"Host": {"virtual.example"}, "X-One": {"1"}}
 	}
+	if tgt.Header != nil && seed%3 == 0 {
+		// a target recorded from an earlier run carries that run's attack and sequence headers: the request still gets this
+		// run's ("plus the attack-name and sequence-number headers that match the result")
+		tgt.Header["X-Vegeta-Seq"] = []string{"41"}
+		if c.Name != "" {
+			tgt.Header["X-Vegeta-Attack"] = []string{"yesterday"}
+		}
+	}
 	targeter := vegeta.Targeter(func(t *vegeta.Target) error {
 		if c.Tgt == "err" {
 			return errors.New("scripted targeter failure")
@@ -210,6 +218,9 @@ func runHitCase(c *hitCase, seed int64) KV {
 		o["req_body_len"], o["req_body_ok"] = len(rt.firstBuf), bytes.Equal(rt.firstBuf, tgt.Body)
 		caseOK := true
 		for k, vs := range tgt.Header {
+			if k == "X-Vegeta-Seq" || k == "X-Vegeta-Attack" {
+				continue // checked below
+			}
 			if !reflect.DeepEqual(rq.Header[k], vs) {
 				caseOK = false
 			}
